@@ -782,7 +782,8 @@ fn emit_b256(out: &mut Vec<u8>, d: &[u8], to_end: bool) {
     }
 }
 
-pub fn run_script(data: &[u8], script: &[Step], prefix: &[u8], cap: usize) -> Vec<u8> {
+/// Unpadded stream of a script.
+pub fn script_stream(data: &[u8], script: &[Step], prefix: &[u8]) -> Vec<u8> {
     let mut out = prefix.to_vec();
     let mut i = 0;
     for s in script {
@@ -873,8 +874,12 @@ pub fn run_script(data: &[u8], script: &[Step], prefix: &[u8], cap: usize) -> Ve
         }
     }
     assert_eq!(i, data.len());
+    out
+}
+
+/// Fill up to the symbol capacity: pad codeword 129, then 253-state randomised pads.
+pub fn pad_to(mut out: Vec<u8>, cap: usize) -> Vec<u8> {
     assert!(out.len() <= cap, "script output {} > cap {}", out.len(), cap);
-    // padding
     if out.len() < cap {
         out.push(129);
         while out.len() < cap {
@@ -883,6 +888,10 @@ pub fn run_script(data: &[u8], script: &[Step], prefix: &[u8], cap: usize) -> Ve
         }
     }
     out
+}
+
+pub fn run_script(data: &[u8], script: &[Step], prefix: &[u8], cap: usize) -> Vec<u8> {
+    pad_to(script_stream(data, script, prefix), cap)
 }
 
 
